@@ -28,14 +28,16 @@ GRAPHS = {
     "chain3": [("a", [("b", "many_to_one")]), ("b", [("c", "many_to_one")]), ("c", [])],
     "star": [("a", [("b", "many_to_one"), ("c", "many_to_one"), ("d", "one_to_many")]), ("b", []), ("c", []), ("d", [])],
     "chain4": [("a", [("b", "one_to_many")]), ("b", [("c", "many_to_one")]), ("c", [("d", "many_to_one")]), ("d", [])],
+    # a model that EXTENDS another one and is registered unresolved (Python API / native YAML): whatever the graph makes of it, it must make the same of it under every schedule
+    "ext": [("p", [("c", "many_to_one")]), ("c", [("r", "many_to_one")]), ("r", [("p", "one_to_many")]), ("e", [], "p")],
 }
 
 
 def mk_layer(gname):
     from sidemantic import Dimension, Metric, Model, Relationship
     L = dbutil.fresh_layer()
-    for name, rels in GRAPHS[gname]:
-        L.add_model(Model(name=name, table=name, primary_key="id",
+    for name, rels, *ext in GRAPHS[gname]:
+        L.add_model(Model(name=name, table=name, primary_key="id", **({"extends": ext[0]} if ext else {}),
                           relationships=[Relationship(name=t, type=ty, foreign_key=(t + "_id") if ty == "many_to_one" else (name + "_id")) for t, ty in rels],
                           dimensions=[Dimension(name="x", type="categorical")], metrics=[Metric(name="n", agg="count")]))
     return L
@@ -56,7 +58,10 @@ def job_compile(L, a, b):
 
 def serial(gname, kind, a, b):
     L = mk_layer(gname)
-    return (job_path if kind == "path" else job_compile)(L, a, b)()
+    try:
+        return (job_path if kind == "path" else job_compile)(L, a, b)()
+    except Exception as e:            # same rendering as sched.run_plan gives a failing job
+        return "%s: %s" % (type(e).__name__, e)
 
 
 def run_case(gname, kind, endpoints, plan):
@@ -128,6 +133,11 @@ def run(c):
                              ("chain4", "compile", [("a", "d"), ("d", "a")]), ("chain3", "compile", [("a", "c"), ("b", "c")]), ("chain4", "path", [("a", "d"), ("b", "d"), ("d", "a")])]:
         for plan in plans(c.rng, n_plans // 6, len(eps)):
             cases.append((gname, kind, eps, plan))
+    import random
+    rng_ext = random.Random(c.seed * 7 + 19)          # a stream of its own: the plans above stay what they were
+    for gname, kind, eps in [("ext", "path", [("e", "r"), ("e", "r")]), ("ext", "compile", [("e", "c"), ("p", "r")])]:
+        for plan in plans(rng_ext, max(6, n_plans // 12), len(eps)):
+            cases.append((gname, kind, eps, plan))
     # deterministic corpus: the slice pattern that exposes a clear-then-refill race (T2 enters on dirty, T1 builds and searches, T2 clears)
     for a in range(1, 6):
         for b in (20, 28, 32, 36, 45):
@@ -153,7 +163,7 @@ def run(c):
     # (into the lazy rebuild), T2 runs k2 lines (through its first lookup into a later one), T1 finishes, T2 finishes
     if c.broken() and not bad_cases:
         found = None
-        for gname, kind, eps in (("chain3", "compile", [("a", "c"), ("a", "c")]), ("chain4", "compile", [("a", "d"), ("b", "d")])):
+        for gname, kind, eps in (("chain3", "compile", [("a", "c"), ("a", "c")]), ("chain4", "compile", [("a", "d"), ("b", "d")]), ("ext", "path", [("e", "r"), ("e", "r")]), ("ext", "compile", [("e", "c"), ("e", "r")])):
             for k1 in range(1, 14):
                 for k2 in range(1, 170, 2):
                     plan = [("T1", k1), ("T2", k2), ("T1", 10 ** 6), ("T2", 10 ** 6)]
@@ -166,8 +176,39 @@ def run(c):
                     break
             if found:
                 break
+        if not found:
+            # three pre-emptions, placed only around the lines that touch the shared attributes (taken from the trace of each call run alone): T1 stops at such a
+            # line, T2 runs to such a line, T1 continues to a later one, T2 finishes, T1 finishes
+            import linecache
+            src = target_files()[0]
+
+            def points(gname, kind, a, b):
+                L = mk_layer(gname)
+                _, tr = sched.run_plan({"T1": (job_path if kind == "path" else job_compile)(L, a, b)}, [("T1", 10 ** 6)], target_files())
+                pts = set()
+                for i, (_n, ln) in enumerate(tr):
+                    if "_adjacency" in linecache.getline(src, ln):
+                        pts.update((i, i + 1))
+                return sorted(x for x in pts if x > 0)
+            for gname, kind, eps in (("ext", "path", [("e", "r"), ("e", "r")]), ("ext", "compile", [("e", "c"), ("e", "r")]), ("chain3", "path", [("a", "c"), ("a", "c")]), ("chain4", "compile", [("a", "d"), ("b", "d")])):
+                p1, p2 = points(gname, kind, *eps[0]), points(gname, kind, *eps[1])
+                for k1 in p1:
+                    for k2 in p2:
+                        for k3 in [x - k1 for x in p1 if x > k1]:
+                            plan = [("T1", k1), ("T2", k2), ("T1", k3), ("T2", 10 ** 6), ("T1", 10 ** 6)]
+                            bad, ntrace = run_case(gname, kind, eps, plan)
+                            evals += 1
+                            if bad:
+                                found = {"kind": "schedule", "graph": gname, "call": kind, "endpoints": eps, "plan": plan, "differing": bad}
+                                break
+                        if found:
+                            break
+                    if found:
+                        break
+                if found:
+                    break
         if found:
-            c.violation("a call on a shared layer returned a different result than when run alone (%s, plan %s; found by the systematic two-pre-emption sweep)" % (found["call"], found["plan"]), found)
+            c.violation("a call on a shared layer returned a different result than when run alone (%s, plan %s; found by the systematic pre-emption sweeps)" % (found["call"], found["plan"]), found)
     # when the skeleton obligation is broken and no real schedule failed yet: search the model, report what it finds
     if c.broken() and prog is not None:
         try:
